@@ -73,7 +73,14 @@ func TestVerif_C12_InactivityClaimSigning(t *testing.T) {
 				}
 				return p, p.Type(), ok, tag
 			},
-			receive: css.Receive,
+			receive:  css.Receive,
+			register: RegisterUnmarshallers,
+			ident: func(m interface{}) string {
+				if v, ok := m.(*claimSignatureMessage); ok {
+					return fmt.Sprintf("claimSignature/%d/%q/%x", v.senderID, v.sessionID, v.publicKey[:8])
+				}
+				return fmt.Sprintf("%T", m)
+			},
 			stored: func() map[int][]interface{} {
 				out := map[int][]interface{}{}
 				for _, nm := range base.GetAllReceivedMessages(claimType) {
